@@ -12,7 +12,7 @@ def plan(tier):
     for k in (1, 2, 3):
         conds.append(Cond("vf.h.h_instr2", "h_prec_order", case=k, timeout=900, label=f"H01g-generator-map-order[generator {k} re-injected]", weight=15))
     for r in (1, 2):
-        conds.append(Cond("vf.h.h_queue", "h_fifo", case=r, timeout=900, env={"VF_ORACLE": "C01", "VF_ROLESET": "1,2,3,5,6,7"}, label=f"H01f-update-order[v0 role {r}]", weight=40))
+        conds.append(Cond("vf.h.h_queue", "h_fifo", case=r, timeout=1500, env={"VF_ORACLE": "C01", "VF_ROLESET": "1,2,5,7"}, label=f"H01f-update-order[v0 role {r}]", weight=40))
     for case in range(8):
         conds.append(Cond("vf.h.h_order", "h_step", case=case, timeout=900, label=f"H01e-step[v0cell={case // 2},v1cell={case % 2}]", weight=40))
     conds.append(Cond("vf.sites", "inventory", case=0, timeout=120, engine="smt", label="H01-site-inventory", weight=1))
